@@ -14,6 +14,9 @@
 (*     -fno-access-control) exactly where the code left them.              *)
 (* The L1 invariants of Mono are evaluated on every state; ContentsStable  *)
 (* additionally consumes the canary verdict the driver logged (`intact`).  *)
+(* Nothing stops the run: a violated clause is recorded as <<line, clause>>*)
+(* and a line that is no step of Mono as <<line, "drift">> (the rest of    *)
+(* that execution is skipped), so one pass judges every execution.         *)
 (* The page size of an execution comes with its reset line.                *)
 (***************************************************************************)
 EXTENDS Mono, Json, IOUtils
@@ -21,19 +24,45 @@ EXTENDS Mono, Json, IOUtils
 Tr == ndJsonDeserialize(IOEnv.TRACE)
 
 VARIABLES l,        \* next line to explain
-          seen      \* canaries as observed by the driver
+          seen,     \* canaries as observed by the driver
+          valid,    \* the current execution has been explained so far
+          verd      \* verdicts: <<line, clause>> (clause "drift": the line is no step of Mono)
 
-tvars == <<vars, l, seen>>
+tvars == <<vars, l, seen, valid, verd>>
 
 TInit ==
   /\ l = 2
-  /\ seen = TRUE
+  /\ seen = TRUE /\ valid = TRUE /\ verd = {}
   /\ Tr[1].k = "reset"
   /\ Init(Tr[1].P)
   /\ TLCSet(1, 1)
   /\ TLCSet(2, {})
 
-Progress == TLCSet(1, IF TLCGet(1) < l' THEN l' ELSE TLCGet(1))
+Progress == TLCSet(1, IF TLCGet(1) < l' THEN l' ELSE TLCGet(1)) /\ TLCSet(2, verd')
+
+\* the canaries the driver wrote into every block (checked after each step, inside every destructor and
+\* before release) were never disturbed, and the model agrees that no bookkeeping write could have
+TContentsStable == ContentsStable /\ seen
+
+\* L1 clauses of the property, evaluated on the state the previous line has led to
+ClauseNames == {"Aligned", "InsideOwnedMemory", "Disjoint", "ContentsStable", "ReleaseRunsEachDestructorOnce", "EachPageReturnedOnce",
+                "OversizeReturnedWithSameBytesAlign", "AccountingZero", "ReusableAfterRelease"}
+H(c) == CASE c = "Aligned" -> Aligned
+          [] c = "InsideOwnedMemory" -> InsideOwnedMemory
+          [] c = "Disjoint" -> Disjoint
+          [] c = "ContentsStable" -> TContentsStable
+          [] c = "ReleaseRunsEachDestructorOnce" -> ReleaseRunsEachDestructorOnce
+          [] c = "EachPageReturnedOnce" -> EachPageReturnedOnce
+          [] c = "OversizeReturnedWithSameBytesAlign" -> OversizeReturnedWithSameBytesAlign
+          [] c = "AccountingZero" -> AccountingZero
+          [] c = "ReusableAfterRelease" -> ReusableAfterRelease
+Judged == IF valid THEN {<<l - 1, c>> : c \in {c \in ClauseNames : ~H(c)}} ELSE {}
+
+\* first line of the next execution
+NextReset(i) ==
+  CHOOSE j \in (i + 1)..(Len(Tr) + 1) :
+    /\ j = Len(Tr) + 1 \/ Tr[j].k = "reset"
+    /\ \A k \in (i + 1)..(j - 1) : Tr[k].k # "reset"
 
 UA(s) == [i \in 1..Len(s) |-> [a |-> s[i].a, n |-> s[i].n, al |-> s[i].al, u |-> s[i].src]]
 UF(s) == [i \in 1..Len(s) |-> [a |-> s[i].a, n |-> s[i].n, al |-> s[i].al, u |-> s[i].to]]
@@ -71,35 +100,34 @@ Op ==
              [] e.op = "destroy" -> Release("destroy")
              [] e.op = "mva" -> MoveAssign
              [] e.op = "mvc" -> MoveConstruct
-             [] OTHER -> FALSE
-        /\ Matches(ev', e)
-        /\ ViewMatches(e)
         /\ seen' = (IF e.op \in {"release", "destroy"} THEN TRUE ELSE seen /\ e.intact)
-  /\ l' = l + 1
+        /\ LET ok == valid /\ Matches(ev', e) /\ ViewMatches(e)
+           IN /\ valid' = ok
+              /\ l' = IF ok THEN l + 1 ELSE NextReset(l)
+              /\ verd' = verd \cup Judged \cup (IF valid /\ ~ok THEN {<<l, "drift">>} ELSE {})
 
 End ==
   /\ l <= Len(Tr) /\ Tr[l].k = "end"
   /\ l' = l + 1
-  /\ UNCHANGED <<vars, seen>>
+  /\ verd' = verd \cup Judged
+  /\ UNCHANGED <<vars, seen, valid>>
 
 Reset ==
   /\ l <= Len(Tr) /\ Tr[l].k = "reset"
   /\ P' = Tr[l].P
   /\ pas' = <<>> /\ oas' = <<>> /\ das' = <<>>
   /\ fb' = 0 /\ fe' = 0 /\ used' = 0 /\ alloc' = 0 /\ up' = "rec" /\ nd' = 0
-  /\ blocks' = {} /\ intact' = TRUE
+  /\ blocks' = {} /\ intact' = TRUE /\ dj' = TRUE /\ ins' = TRUE
   /\ pages' = {} /\ ulive' = {} /\ ucur' = UCur0
   /\ ev' = NoEv
-  /\ seen' = TRUE
+  /\ seen' = TRUE /\ valid' = TRUE
+  /\ verd' = verd \cup Judged
   /\ l' = l + 1
 
 TNext == (Op \/ End \/ Reset) /\ Progress
 
 TSpec == TInit /\ [][TNext]_tvars
 
+\* <<"VERIF", lines consumed, lines, verdicts>>: every execution is judged in one pass
 Post == PrintT(<<"VERIF", TLCGet(1) - 1, Len(Tr), TLCGet(2)>>)
-
-\* the canaries the driver wrote into every block (checked after each step, inside every destructor and
-\* before release) were never disturbed, and the model agrees that no bookkeeping write could have
-TContentsStable == ContentsStable /\ seen
 =============================================================================
